@@ -157,6 +157,9 @@ From GoMC Require Gen.Funcs Proofs.C14_tie.
 Theorem C14_sectorLoc_translated : forall o : N, (o < 2^32)%N ->
   Funcs.region_sectorLoc (sx32 o) = (Z.of_N (sec_of o), Z.of_N (cnt_of o)).
 Proof. exact C14_tie.tie_sectorLoc. Qed.
+Theorem C14_need_translated : forall n : N, n < 2 ^ 31 ->
+  Funcs.region_Region_WriteSector_need (Z.of_N n) = Z.of_N ((n + 4 + 4095) / 4096).
+Proof. exact C14_tie.tie_need. Qed.
 
 Print Assumptions C14_create.
 Print Assumptions C14_refines.
@@ -175,3 +178,4 @@ Print Assumptions C14_pad.
 Print Assumptions C14_find_space.
 Print Assumptions C14_file_semantics.
 Print Assumptions C14_sectorLoc_translated.
+Print Assumptions C14_need_translated.
